@@ -338,7 +338,8 @@ class SearchCatalog():
             return [path]
 
         if os.path.isdir(path):
-            return self._filtered_dir(os.listdir(path),
+            return self._filtered_dir([os.path.join(path, f)
+                                       for f in os.listdir(path)],
                                       self.max_logrotate_depth)
 
         return self._filtered_dir(glob.glob(path), self.max_logrotate_depth)
